@@ -1,0 +1,17 @@
+//go:build verif
+// +build verif
+
+package generic
+
+/* verification hook (build tag verif): observation points of the parallel
+ * EM / Baum-Welch steps; the hook may block, which lets a test harness shape
+ * the schedule
+ * -------------------------------------------------------------------------- */
+
+var VerifHook func(event string, thread, job int, init bool, likelihood float64)
+
+func verifHook(event string, thread, job int, init bool, likelihood float64) {
+  if h := VerifHook; h != nil {
+    h(event, thread, job, init, likelihood)
+  }
+}
